@@ -15,7 +15,7 @@ from ..core import Violation, call
 from ..seams import SimCrash
 
 KINDS = [('sdo', 6), ('sco', 2), ('marking', 1), ('custom', 2), ('unreg', 3)]
-OPS = ['add', 'get', 'all_versions', 'query_all', 'query_type', 'query_id', 'save_load', 'restart']
+OPS = ['add', 'get', 'all_versions', 'query_all', 'query_type', 'query_id', 'save_load', 'restart', 'load_into']
 FORMS_M = ['single', 'single', 'list', 'bundle_obj', 'bundle_dict']
 FORMS_F = ['single', 'single', 'list', 'bundle_obj', 'bundle_dict', 'text', 'bundle_text']
 
@@ -29,7 +29,7 @@ class C11(Profile):
     probes = ['older_version_added_after_newer', 'bundle_form', 'text_form', 'unregistered_dict_versioned',
               'save_dir_path', 'torn_write_then_restart', 'enospc_mid_list', 'exact_readd', 'read_under_torn_file',
               'save_load_compared', 'utf16_save', 'bundlify_store', 'fault_on_read_fired', 'mixed_versions_in_memory',
-              'add_resolved_by_observation', 'same_instant_respelled']
+              'add_resolved_by_observation', 'same_instant_respelled', 'loaded_into_nonempty_store', 'multi_chunk_write_fault']
     rule = ('plans: a pool of <=12 ids x <=5 versions (versioned SDO/SRO of 2.0 and 2.1, 2.1 SCOs, marking definitions, registered '
             'custom type, unregistered dict-kept type) and 5-40 ops (adds in every documented form to a MemoryStore and a '
             'FileSystemStore on the simulated disk, reads, save/load, restart, repair); every 5th run injects I/O faults / crashes. '
@@ -57,7 +57,7 @@ class C11(Profile):
         n_ids = rng.randrange(2, 13)
         pool = SW.gen_pool(rng, index, n_ids, rng.choice([1, 2, 3, 5]), KINDS, digits_mixed=cfg['spelling_knob'])
         kinds = U.swarm_weights(rng, OPS, keep=0.8, must=('add',))
-        kinds = [(k, w * (4 if k == 'add' else 1) * (0.3 if k in ('save_load', 'restart') else 1)) for k, w in kinds]
+        kinds = [(k, w * (4 if k == 'add' else 1) * (0.3 if k in ('save_load', 'restart', 'load_into') else 1)) for k, w in kinds]
         ops = []
         nops = rng.randrange(5, 41)
         for _ in range(nops):
@@ -143,6 +143,8 @@ class C11(Profile):
             elif kind == 'restart':
                 sw.make_fs()
                 world.log(op='restart')
+            elif kind == 'load_into':
+                self.op_load_into(sw, world, op)
             elif kind == 'repair':
                 self.op_repair(sw, world)
             if kind != 'repair':
@@ -233,6 +235,8 @@ class C11(Profile):
             crashed = True
             out = None
         fired = sw.disk.end_op()
+        if fired and (op.get('fault') or {}).get('chunk') and fired[0].endswith('@write'):
+            world.probe('multi_chunk_write_fault')
         tag = 'crash' if crashed else out.tag
         world.state(store, 'add', op['form'], fired[0] if fired else '-', tag.split(':')[0])
         world.log(op='add', store=store, form=op['form'], keys=[SW.kstr(k) for k, _ in keys], outcome=tag, fired=fired)
@@ -428,9 +432,28 @@ class C11(Profile):
             if not g.ok or g.value is None or sw.observe([g.value])[0][0] != want:
                 raise Violation('save-load', 'C11.save_load/get', dict(id=sid, want=SW.kstr(want)))
         world.probe('save_load_compared')
+        if not hasattr(sw, 'exports'):
+            sw.exports = []
+        sw.exports.append((saved, enc, dict(model)))
         world.log(op='save_load', outcome='ok', n=len(model), path=op['path'], enc=enc)
         if op.get('adopt'):
             sw.M = M2
+
+    def op_load_into(self, sw, world, op):
+        """Load an earlier export into the (non-empty) memory store: the result is the union."""
+        saved = getattr(sw, 'exports', [])
+        if not saved:
+            world.stat('op_skipped')
+            return
+        path, enc, snap = saved[op.get('ls_key', 0) % len(saved)]
+        out = call(sw.M.load_from_file, path, encoding=enc)
+        world.log(op='load_into', outcome=out.tag, n=len(snap))
+        if not out.ok:
+            raise Violation('save-load', 'C11.load-into-raised/%s' % type(out.exc).__name__, dict(exc=repr(out.exc)[:300]))
+        for k, v in snap.items():
+            sw.models['M'].setdefault(k, v)
+        world.probe('loaded_into_nonempty_store')
+        self.read_compare(sw, world, 'M', 'query_all', None)
 
     # -- repair / disk invariant ---------------------------------------------
     def op_repair(self, sw, world):
